@@ -295,7 +295,7 @@ func (e *c13Env) run(c c13Case) *Violation {
 	return nil
 }
 
-var c13Payloads = []string{"string", "error", "nilmap", "nilptr", "custom", "index", "nilstringer", "nilerror", "funcstruct", "chan", "nan"}
+var c13Payloads = []string{"string", "error", "nilmap", "nilptr", "custom", "index", "nilstringer", "nilerror", "funcstruct", "chan", "nan", "ctrlbytes", "badutf8", "longnoblank"}
 
 const c13Rule = "panic payload {string, error, nil-map write, nil dereference, custom struct, index out of range} x call kind {unary, no-context, notification, channel-returning, reverse (panic in the client-side handler)} x 0-4 healthy gated sibling calls and an optional paced stream in progress on the same connection x 1-3 panics in a row x {ws, http}; server hosted in a child process. Complete grid of payload x kind x transport plus rapid-generated mixes. Non-trivial = at least one sibling or stream in progress, or a non-string payload; distinct by descriptor hash"
 
@@ -305,7 +305,7 @@ func TestC13(t *testing.T) {
 	rec := NewRec("C13", c13Rule)
 	defer rec.Finish(t)
 	rec.EnableJournal()
-	rec.RequireClass("simultaneous_panics", "payload_funcstruct", "payload_nan", "kind_cancel_then_panic", "payload_nilstringer", "payload_nilerror", "kind_unary", "kind_notify", "kind_sub", "kind_reverse", "tr_http", "tr_ws", "with_siblings", "with_stream")
+	rec.RequireClass("payload_ctrlbytes", "payload_badutf8", "payload_longnoblank", "simultaneous_panics", "payload_funcstruct", "payload_nan", "kind_cancel_then_panic", "payload_nilstringer", "payload_nilerror", "kind_unary", "kind_notify", "kind_sub", "kind_reverse", "tr_http", "tr_ws", "with_siblings", "with_stream")
 	run := func(ft failer, c c13Case) {
 		cl := []string{"kind_" + c.Kind, "tr_" + c.Transport, "payload_" + c.Payload}
 		if c.Siblings > 0 {
